@@ -230,7 +230,11 @@ func violations(method string, follower bool, msg any, w world) (vs []violation,
 		if len(m.Name) == 0 {
 			vs = append(vs, inv(slug+"-missing-name"))
 		} else if !follower {
-			if w.tableExists(m.Name) {
+			if strings.Contains(m.Name, "/") {
+				// a table name must not contain '/' (it could not be listed: the catalogue is matched
+				// like a path)
+				vs = append(vs, inv(slug+"-name-with-slash"))
+			} else if w.tableExists(m.Name) {
 				vs = append(vs, nonOK(slug+"-existing-table"))
 			} else if !plainName(m.Name) {
 				unjudged = true // nothing documented about which names are acceptable
